@@ -62,6 +62,7 @@ DoOp(t, nt) ==
     [] o = "bi"     -> BiDependsOn(t, nt[2], nt[3])
     [] o = "clr"    -> Clear(t, nt[2])
     [] o = "clrall" -> ClearAll(t)
+    [] o = "gclear" -> ClearGraph(t)
     [] o = "move"   -> MoveGraph(t)
     [] o = "mark"   -> Mark(t, nt[2])
     [] o = "setall" -> SetAll(t)
